@@ -200,7 +200,12 @@ extern "C" int harness_main()
 	cfg.out[sender].append(std::make_shared<seg_probe>(false));
 #if LOSS == 1
 	drp = std::make_shared<dropper>(DROPS, 3);
+#ifdef FARDROP
+	// the faulty hop sits behind the network queue: a drop is reported back after later segments were sent already
+	cfg.net.append(std::static_pointer_cast<sink>(drp));
+#else
 	cfg.out[sender].append(std::static_pointer_cast<sink>(drp));
+#endif
 #elif LOSS == 2
 	{
 		// finite tail-drop queues able to hold at least one full segment (MTU + 40 bytes of overhead)
